@@ -56,8 +56,8 @@ FLOORS = {
     "quick": {"evaluations": 3000, "distinct": 2000,
               "counters": {"hook_events": 6000, "subsets": 64, "events_compared": 6000,
                            "unintercepted_applications": 6000, "async_renders": 400,
-                           "overlay_cases": 500, "overlay_renders": 1800,
-                           "overlay_discriminating_cases": 350, "overlay_events_compared": 2500}},
+                           "overlay_cases": 250, "overlay_renders": 900,
+                           "overlay_discriminating_cases": 180, "overlay_events_compared": 1500}},
     "thorough": {"evaluations": 80000, "distinct": 60000,
                  "counters": {"hook_events": 200000, "subsets": 512, "events_compared": 200000,
                               "unintercepted_applications": 200000, "async_renders": 12000,
